@@ -78,6 +78,41 @@ def oracle(case, outcome, ctx):
                     stripped,
                 )
                 return
+        # an adjacency is a pair of contig ends: what the scaffolds are called does not enter into it,
+        # so giving every output scaffold of an assembly the same name changes neither count
+        from tola.assembly.scaffold import Scaffold
+
+        alike = {}
+        for k, a in out_obj.items():
+            na = Assembly(a.name)
+            for s in a.scaffolds:
+                na.add_scaffold(Scaffold("same_name", rows=s.rows))
+            alike[k] = na
+        st = AssemblyStats()
+        st.input_assembly = Assembly("in", scaffolds=in_scs)
+        st.make_stats(alike)
+        ctx.count("metamorphic:output-scaffolds-named-alike")
+        if (st.breaks, st.joins) != (exp["breaks"], exp["joins"]):
+            ctx.violation("counts-change-when-output-scaffolds-share-a-name", f"breaks/joins {(st.breaks, st.joins)} vs {(exp['breaks'], exp['joins'])}\ninput={case['input']}\noutput={outcome['out']}", stripped)
+            return
+        # the same Scaffold objects counted, edited, counted again: the second count is that of the edited rows
+        if len(in_scs) >= 2 and in_scs[0].rows and in_scs[1].rows:
+            a_, b_ = in_scs[0], in_scs[1]
+            a_.fragment_junction_set()
+            b_.fragment_junction_set()
+            a_.append_scaffold(b_)  # no gap: the two scaffolds become one, one adjacency more
+            edited = [a_] + in_scs[2:]
+            fresh = build_scaffolds([[case["input"][0][0], case["input"][0][1] + case["input"][1][1]]] + case["input"][2:])
+            res2 = []
+            for inp_use in (edited, fresh):
+                st = AssemblyStats()
+                st.input_assembly = Assembly("in", scaffolds=inp_use)
+                st.make_stats(out_obj)
+                res2.append((st.breaks, st.joins))
+            ctx.count("metamorphic:input-scaffold-edited-between-counts")
+            if res2[0] != res2[1]:
+                ctx.violation("counts-of-edited-scaffold-objects-differ-from-fresh-objects", f"same rows: edited objects give breaks/joins {res2[0]}, freshly built ones {res2[1]}\ninput={case['input']}", stripped)
+                return
     except Exception as e:  # noqa: BLE001
         ctx.violation(f"statistics-raised-{type(e).__name__}", f"make_stats on reversed scaffolds raised {e}", stripped)
         return
@@ -177,6 +212,8 @@ def gates(c, tier):
         "cases-with:joins": 1000,
         "cases-with:head-to-head-or-tail-to-tail-junction": 500,
         "metamorphic:both-reversed": 3000,
+        "metamorphic:output-scaffolds-named-alike": 3000,
+        "metamorphic:input-scaffold-edited-between-counts": 2000,
         "label:in:1bp-contig": 100,
         "label:in:gap-only-scaffold": 30,
         "cli:ok": 20,
